@@ -209,37 +209,35 @@ func verifC08CRC(b []byte) uint32 {
 	return c.Sum32()
 }
 
+// verifC08Name is the object name; the all-zero name (go-git's "no hash yet"
+// marker) would need a preimage of 0 and is assumed away.
 func verifC08Name(t plumbing.ObjectType, c []byte) []byte {
-	return verifrt.HashUF(append(verifC08ObjHeader(t, int64(len(c))), c...), 20)
+	n := verifrt.HashUF(append(verifC08ObjHeader(t, int64(len(c))), c...), 20)
+	verifrt.Assume(!verifrt.BytesEq(n, make([]byte, 20)))
+	return n
 }
 
 // verifC08Delta builds a delta stream against a base of length l, in one of
 // three shapes (the command bytes are concrete, the literal is symbolic;
-// arbitrary delta streams are C06): 0 = insert the literal, 1 = copy the whole
-// base, 2 = copy the whole base then insert the literal. A base of length 0
-// cannot be copied from (a copy of size 0 means 0x10000): shapes 1 and 2 then
-// yield nil and the caller drops the case (shape 0 covers it).
+// arbitrary delta streams are C06): 0 = copy the whole base, then insert the
+// literal; 1 = copy the whole base; 2 = insert the literal only. A base of
+// length 0 cannot be copied from (a copy of size 0 means 0x10000): shape 0
+// then only inserts, and shapes 1 and 2 yield nil (the caller drops the case).
 func verifC08Delta(l int, shape int, lit []byte) []byte {
 	if l == 0 && shape != 0 {
 		return nil
 	}
-	if shape == 0 {
-		d := []byte{byte(l), byte(len(lit))}
-		if len(lit) > 0 {
-			d = append(d, byte(len(lit)))
-			d = append(d, lit...)
-		}
-		return d
-	}
 	if shape == 1 {
 		return []byte{byte(l), byte(l), 0x90, byte(l)}
 	}
-	d := []byte{byte(l), byte(l + len(lit)), 0x90, byte(l)}
-	if len(lit) > 0 {
-		d = append(d, byte(len(lit)))
-		d = append(d, lit...)
+	d := []byte{byte(l), byte(l + len(lit))}
+	if l == 0 || shape == 2 {
+		d[1] = byte(len(lit))
+	} else {
+		d = append(d, 0x90, byte(l))
 	}
-	return d
+	d = append(d, byte(len(lit)))
+	return append(d, lit...)
 }
 
 // VerifHarness_C08_parse: see the file comment. Parameters: N entries; KINDS
